@@ -48,11 +48,11 @@ var hCfgVals = map[string][]string{
 	"goarch": {"amd64", "arm64", "386"},
 	"pkg":    {"p/a", "p/b", "p/c", "golang.org/x/perf/a/very/long/package/path/that/goes/on/and/on/and/on/impl1", "golang.org/x/perf/a/very/long/package/path/that/goes/on/and/on/and/on/impl2"},
 	"cpu":    {"1", "2", "10", "1k", "1Ki", "2M", "1500", "NaN", "inf", "abc", "zed", "3Gi", "1Zi", "1Yi", "2Z", "5.5", "0.5k", "999999999.5", "1000000000", "9.999999994e-1", "1e0", "1.0000000006", "4", "8", "010", "0100", "007", "08", "012k", ".5k", "1.k", ".5Mi", "2.5k", "600", "5.", "0.000000000000000000000000125Ki", "1000000000000000000000000000000k", "0000000000000000000000000000000000002"},
-	"note":   {"base", "opt", "opt2", "x y", "zz", "\xffa", "\xfeb", "\xc3", "é", "\U00010000", "\uffff", "\xf0\x90"}, // invalid UTF-8 and astral runes: bytewise is not code-point order
+	"note":   {"base", "opt", "opt2", "x y", "zz", "\xffa", "\xfeb", "\xc3", "é", "\U00010000", "\uffff", "\xf0\x90", "opt ", "opt\t", "base \t", "box\xe9", "box\xe8"}, // invalid UTF-8 and astral runes: bytewise is not code-point order
 	"commit": {"c1", "c2", "c3", "c4", "c5", "c6"},
 }
 // hShared values occur under every configuration key, so that the same string is first observed at different times under different keys.
-var hShared = []string{"4", "8", "16", "x", "a\x00", "\x00b", "a", "b", "\x00"} // NUL bytes: values that run into each other when joined naively
+var hShared = []string{"4", "8", "16", "x", "a\x00", "\x00b", "a", "b", "\x00", "ab", "bc", "abc", "c", "a", "b", "x"} // NUL bytes: values that run into each other when joined naively
 
 var hSubKeys = []string{"size", "align", "poly", "fmt", "size2", "al"}
 var hSubVals = map[string][]string{
@@ -65,6 +65,9 @@ var hSubVals = map[string][]string{
 }
 var hBases = []string{"Encode", "Decode", "Sort", "CRC", "SHA-256", "SHA-512", "X-1"} // a dash and digits inside the base are part of it when sub-name parts follow
 var hUnits = []string{"sec/op", "B/op", "allocs/op", "B/s", "widgets"}
+
+// hTinyAlphabet: this run draws all configuration values from a three-string alphabet
+var hTinyAlphabet bool
 
 func hGenResult(T *sim.Tape, universe int, nsub int) *hResult {
 	res := &hResult{cfgMap: map[string]string{}, internal: map[string]bool{}}
@@ -83,6 +86,10 @@ func hGenResult(T *sim.Tape, universe int, nsub int) *hResult {
 		v := vals[T.Intn(nv, "cfgval")]
 		if T.Intn(4, "shared-val") == 0 {
 			v = sim.Pick(T, hShared, "sharedv")
+		}
+		if hTinyAlphabet {
+			// every value from {a, b, ab}: many distinct tuples whose values run together to the same bytes
+			v = []string{"a", "b", "ab", "a", "b", "ba"}[T.Intn(6, "tinyval")]
 		}
 		if T.Intn(12, "explicit-empty") == 0 {
 			v = "" // an explicitly empty value counts as missing
@@ -405,6 +412,9 @@ func hGenExprs(T *sim.Tape) []hExpr {
 	}
 	if T.Intn(3, "with-unit") == 0 {
 		exprs[0].unit = true
+		if len(exprs) > 1 && T.Intn(3, "second-unit") == 0 {
+			exprs[len(exprs)-1].unit = true // two projections of one parser, each with a .unit field and a history of its own
+		}
 	}
 	return exprs
 }
@@ -531,26 +541,66 @@ func (hp *hProj) flat() []hFlat {
 	return out
 }
 
-// tuple returns the model's values of a result aligned with flat(), growing
-// the .config sub-field list in Config order as new file keys appear.
-func (hp *hProj) tuple(w *hWorld, h *hResult, unit string) []string {
+// syncFields brings the model's list of .config sub-fields in line with the projection's own. Which file keys get a
+// sub-field, and when, is the implementation's business as long as every key that has shown a value in a projected
+// result has one, no sub-field stands for a key that is named specifically elsewhere or was never seen, none appears
+// twice and the ones that exist keep their order.
+func (hp *hProj) syncFields(c *hCheck, w *hWorld, h *hResult) {
+	hasCfg := false
 	for _, f := range hp.expr.fields {
-		if f.key != ".config" {
-			continue
+		if f.key == ".config" {
+			hasCfg = true
 		}
-		for _, kv := range h.cfg {
-			if h.internal[kv[0]] {
-				continue
-			}
-			if !hp.cfgSeen[kv[0]] && !w.cfgSpecific[kv[0]] {
-				hp.cfgSeen[kv[0]] = true
-				hp.cfgOrder = append(hp.cfgOrder, kv[0])
-				if len(hp.keys) > 0 {
-					hp.cfgLate[kv[0]] = true // keys made before this sub-field existed lack it implicitly
-				}
+	}
+	if !hasCfg {
+		return
+	}
+	for _, kv := range h.cfg {
+		if !h.internal[kv[0]] && !w.cfgSpecific[kv[0]] {
+			hp.cfgSeen[kv[0]] = true
+		}
+	}
+	var api []string
+	for _, f := range hp.proj.Fields() {
+		if f.IsTuple {
+			for _, sub := range f.Sub {
+				api = append(api, sub.Name)
 			}
 		}
 	}
+	dup := map[string]bool{}
+	for _, k := range api {
+		if dup[k] {
+			c.r.Fail("fields", "flattened-fields-differ", "%s projection %q: .config has two sub-fields named %q: %v", c.label, hp.expr.text, k, api)
+		}
+		dup[k] = true
+		if !hp.cfgSeen[k] {
+			c.r.Fail("fields", "flattened-fields-differ", "%s projection %q: .config has a sub-field %q, which is no file key of any result projected so far (or is named specifically elsewhere): %v", c.label, hp.expr.text, k, api)
+		}
+	}
+	j := 0
+	for _, k := range hp.cfgOrder { // the earlier sub-fields, in their order, are a subsequence of the present ones
+		for j < len(api) && api[j] != k {
+			j++
+		}
+		if j == len(api) {
+			c.r.Fail("fields", "flattened-fields-differ", "%s projection %q: .config sub-fields were %v and are %v now", c.label, hp.expr.text, hp.cfgOrder, api)
+		}
+	}
+	was := map[string]bool{}
+	for _, k := range hp.cfgOrder {
+		was[k] = true
+	}
+	for _, k := range api {
+		if !was[k] && len(hp.keys) > 0 {
+			hp.cfgLate[k] = true // keys made before this sub-field existed lack it implicitly
+		}
+	}
+	hp.cfgOrder = api
+}
+
+// tuple returns the model's values of a result aligned with flat().
+func (hp *hProj) tuple(w *hWorld, h *hResult, unit string) []string {
 	var out []string
 	for _, f := range hp.expr.fields {
 		if f.key == ".config" {
@@ -591,8 +641,23 @@ type hCheck struct {
 // identity checks of C08 (1) and (2).
 func (hp *hProj) observe(c *hCheck, w *hWorld, h *hResult, key Key, unit string) {
 	r := c.r
+	hp.syncFields(c, w, h)
 	vals := hp.tuple(w, h, unit)
 	fl := hp.flat()
+	for _, f := range hp.expr.fields {
+		if f.key != ".config" {
+			continue
+		}
+		have := map[string]bool{}
+		for _, k := range hp.cfgOrder {
+			have[k] = true
+		}
+		for _, kv := range h.cfg {
+			if kv[1] != "" && !h.internal[kv[0]] && !w.cfgSpecific[kv[0]] && !have[kv[0]] {
+				r.Fail("fields", "flattened-fields-differ", "%s projection %q: result %q carries %s=%q but .config has no sub-field for it (%v)", c.label, hp.expr.text, h.name, kv[0], kv[1], hp.cfgOrder)
+			}
+		}
+	}
 	t := canonTuple(fl, vals)
 	isNew := false
 	if k2, ok := hp.byTuple[t]; ok {
@@ -913,6 +978,8 @@ func hRun(t *testing.T, r *sim.Run, prop string) {
 	if noFilter {
 		r.Hit("results projected without applying the filter of the fixed value lists")
 	}
+	hTinyAlphabet = T.Intn(8, "tiny-alphabet") == 0
+	defer func() { hTinyAlphabet = false }()
 	reuse := T.Bool("reuse-result-object")
 	if reuse {
 		r.Hit("one Result object reused in place for the whole stream")
@@ -998,7 +1065,7 @@ func hRun(t *testing.T, r *sim.Run, prop string) {
 						if ks := hp.proj.ProjectValues(res); len(ks) != 0 {
 							r.Fail("key-identity", "projectvalues-length", "ProjectValues returned %d keys for a result without values", len(ks))
 						}
-						hp.tuple(w, h, "") // no key comes of it, but the file keys it carries are known to the .config group from now on
+						hp.syncFields(c, w, h) // no key comes of it; the file keys it carries may or may not be known to the .config group from now on
 
 					}
 				}
@@ -1016,6 +1083,9 @@ func hRun(t *testing.T, r *sim.Run, prop string) {
 			}
 			var joint strings.Builder
 			for _, hp := range append(append([]*hProj(nil), inst.projs...), inst.residue) {
+				if prop == "C09" && T.Intn(10, "projection-skips-result") == 0 {
+					continue // projections of one parser need not all see every result: each has its own history
+				}
 				if hp.expr.unit {
 					if T.Intn(4, "project-on-unit-projection") == 0 {
 						// Project on a projection parsed with a unit: the unit field is empty
